@@ -7,6 +7,9 @@ def _gen(repo, verif, bdir, tier):
             for s in sorted({0, 1, m - 1}):
                 if s < m:
                     geoms.append((d, m, s))
+    # message sizes near the 16-bit limit of the descriptor: offsets beyond 64 KiB, slot arithmetic in 16/32 bits
+    for d, m, sl in ((2, 65535, 0), (3, 32768, 0), (3, 40000, 1), (5, 16384, 3), (17, 4096, 0), (32, 4096, 1), (32, 2115, 0), (32, 65535, 0), (31, 2200, 7)):
+        geoms.append((d, m, sl))
     with open(os.path.join(bdir, 'c10_geoms.h'), 'w') as f:
         for i, (d, m, s) in enumerate(geoms):
             f.write('static messageq_t sq_%d = MESSAGEQ_VAR_INIT(STATIC_BASE, %d, %d);\n' % (i, d * m + s, m))
@@ -23,7 +26,7 @@ CHECK = dict(
          'messageq.c sequentially: claim / send (any claimed-unsent message) / receive / release (oldest held); each '
          'transition is compared with a per-slot status model (returned pointers, NULLs, messageq_empty, payload, guard and '
          'slack bytes); distinct = distinct raw (descriptor + model) images per geometry',
-    bounds=dict(quick='depths 1..32 with msg_len 4 (slack 0,1,3) and all 7 message sizes x slacks at depths 1,2,3,8,31,32; '
+    bounds=dict(quick='9 geometries with message sizes 2115..65535 (storage beyond 64 KiB); depths 1..32 with msg_len 4 (slack 0,1,3) and all 7 message sizes x slacks at depths 1,2,3,8,31,32; '
                       'depth<=5: complete reachable space; depth 6..12: at most 3 claimed-unsent messages; depth>=13: at '
                       'most 2 claimed-unsent and 3 held; both constructors compared field by field for every geometry, '
                       'static twin explored for depth<=4 and 32',
